@@ -65,7 +65,7 @@ def handle(job):
     # still discounted, the graft accumulators still decay, the momentum still moves)
     classes = [["zero" if (seed % 3 == 0 and (seed // 3 + t + 2 * i) % 4 == 1) else "ok" for i in range(n)]
                for t in range(T)]
-    grads = dsrun.make_grads(shapes, classes, seed)
+    grads = dsrun.make_grads(shapes, classes, seed, scales=[geo.get("gscale", 1.0)] * n)
     geos = [refds.Geometry(s, geo["block"], geo["merge"], geo["merge_limit"], geo["ptype"], geo["override"])
             for s in shapes]
     params = [np.asarray(r.params[f"p{i}"], np.float64) for i in range(n)]
